@@ -412,6 +412,14 @@ func runScenario(r *ev.Run, s Scenario) {
 	}
 	results := make([]*vsched.Stats, workers)
 	errs := make([]string, workers)
+	// Small scenarios are explored in-process; only when a probe of 400 executions does not
+	// exhaust the space is the scenario sharded over worker processes.
+	probe := cfgOf(s)
+	probe.MaxExec = 400
+	if pst := vsched.Explore(probe, s.Body); pst.Exhaustive || pst.HarnessError != "" || len(pst.Found) > 0 {
+		results = []*vsched.Stats{pst}
+		workers = 0
+	}
 	var wg sync.WaitGroup
 	for w := 0; w < workers; w++ {
 		wg.Add(1)
@@ -517,7 +525,7 @@ func runScenario(r *ev.Run, s Scenario) {
 		"choice_points":                 points,
 		"max_choice_points_per_run":     maxTrace,
 		"max_threads":                   maxThreads,
-		"workers":                       workers,
+		"workers":                       len(results),
 		"leaked_executions":             leaked,
 	}
 	for _, sm := range samples {
